@@ -100,6 +100,7 @@ type cTx struct {
 	firstWriteOK bool
 	cbBegun      int
 	reuseOf      int
+	protected    bool // the server answers and the network delivers that answer intact (nested Do from a handler)
 }
 
 func (t *cTx) name() string {
@@ -120,6 +121,7 @@ type cDatagram struct {
 	fallback  int
 	closeSeen bool
 	overlapCB bool
+	protected bool
 }
 
 type cCallback struct {
@@ -159,6 +161,7 @@ type clientEngine struct {
 
 	// configuration
 	manual                                bool
+	skew                                  time.Duration
 	noConnClose                           bool
 	noRetransmit                          bool
 	hasFallback                           bool
@@ -210,6 +213,7 @@ type clientEngine struct {
 	marathon      bool
 	reentPct      int
 	reentered     int
+	nestedDo      int
 	healClock     int
 	idleRounds    int
 	lastProgress  int
@@ -251,11 +255,14 @@ func (e *clientEngine) fail(tx *cTx, prop, class, f string, a ...any) {
 	}
 }
 
+// exactClock: the harness sees every clock reading the client takes.
+func (e *clientEngine) exactClock() bool { return e.manual || e.skew != 0 }
+
 func (e *clientEngine) vnow() time.Time {
 	if e.manual {
 		return e.now
 	}
-	return time.Now()
+	return time.Now().Add(-e.skew) // skew != 0: WithClock over the real ticker collector
 }
 
 // ---------------------------------------------------------------------------
@@ -266,10 +273,11 @@ type simClock struct{ e *clientEngine }
 func (c simClock) Now() time.Time {
 	e := c.e
 	verifrt.Yield(hsClock)
+	now := e.vnow()
 	if tk := e.r.Sim.Cur(); tk != nil {
-		e.lastNow[tk.ID] = e.now
+		e.lastNow[tk.ID] = now
 	}
-	return e.now
+	return now
 }
 
 type simCollector struct {
@@ -426,7 +434,7 @@ func (c *simConn) Read(b []byte) (int, error) {
 			return true
 		}
 		if len(e.inbox) > 0 {
-			if e.avoidKnown && e.inbox[0].decodes && e.cbActive[e.inbox[0].id] > 0 {
+			if e.avoidKnown && e.nestedDo == 0 && e.inbox[0].decodes && e.cbActive[e.inbox[0].id] > 0 {
 				return false // known finding K-c: do not create the overlap in this run
 			}
 			return true
@@ -590,7 +598,11 @@ func (e *clientEngine) serve(req []byte) {
 	if m.Type.Class != stun.ClassRequest {
 		return
 	}
+	ptx := e.byID[m.TransactionID]
 	n := r.Pick([]int{3, 5, 1}, "server-responses") // 0, 1 or 2 responses
+	if ptx != nil && ptx.protected && n == 0 {
+		n = 1
+	}
 	if e.marathon {
 		n = 1 + r.Pick([]int{20, 1}, "server-responses-m")
 	}
@@ -620,7 +632,22 @@ func (e *clientEngine) serve(req []byte) {
 		if err != nil {
 			panic(&harnessPanic{"server build: " + err.Error()})
 		}
+		if r.Pct(8, "resp-exact-size") {
+			// total size on both sides of the reader's buffer size
+			target := 1012 + 4*r.Choose(6, "resp-exact") // 1012 .. 1032
+			if need := target - len(resp.Raw) - 4; need >= 0 {
+				resp.Add(stun.AttrType(0x8300), make([]byte, need))
+			}
+		}
 		d := &cDatagram{data: append([]byte(nil), resp.Raw...), kind: "response"}
+		if ptx != nil && ptx.protected && i == 0 {
+			d.protected = true
+			if len(d.data) > 1000 {
+				d.data = d.data[:0]
+				small := stun.MustBuild(stun.NewTransactionIDSetter(m.TransactionID), stun.BindingSuccess)
+				d.data = append(d.data, small.Raw...)
+			}
+		}
 		e.classify(d)
 		e.pending = append(e.pending, d)
 	}
@@ -629,6 +656,28 @@ func (e *clientEngine) serve(req []byte) {
 func (e *clientEngine) spontaneous() {
 	r := e.r
 	var d *cDatagram
+	if r.Pct(10, "garbage-burst") {
+		// a burst of undecodable datagrams in a row
+		n := 3 + r.Choose(30, "burst-len")
+		for i := 0; i < n; i++ {
+			var g []byte
+			switch r.Choose(3, "burst-kind") {
+			case 0:
+				g = []byte{byte(i), 1, 2}
+			case 1: // STUN-like header with a bad cookie
+				g = make([]byte, 20)
+				g[1] = 1
+			default: // valid header, attribute running past the end
+				m := stun.MustBuild(stun.NewTransactionIDSetter(e.freshID()), stun.BindingSuccess, stun.NewSoftware("x"))
+				g = append([]byte(nil), m.Raw[:len(m.Raw)-2]...)
+			}
+			d := &cDatagram{data: g, kind: "burst-garbage"}
+			e.classify(d)
+			e.inbox = append(e.inbox, d)
+		}
+		e.stats["fault_garbage_burst"]++
+		return
+	}
 	switch r.Choose(5, "spont-kind") {
 	case 0: // indication with a fresh id
 		m := stun.MustBuild(stun.NewTransactionIDSetter(e.freshID()), stun.NewType(stun.MethodBinding, stun.ClassIndication))
@@ -764,7 +813,7 @@ func (e *clientEngine) onWriteBegin(tx *cTx, w *cWrite, data []byte) {
 		// value that may have been in force between invoke and now is admissible
 		e.setRTOBounds(tx, w.seq)
 		lb := tx.invokeAt
-		if e.manual && !w.lastNow.IsZero() && tx.kind != txIndicate {
+		if e.exactClock() && !w.lastNow.IsZero() && tx.kind != txIndicate {
 			lb = w.lastNow
 		}
 		tx.lb = append(tx.lb, lb)
@@ -777,7 +826,7 @@ func (e *clientEngine) onWriteBegin(tx *cTx, w *cWrite, data []byte) {
 				k, tx.name(), now.Sub(baseTime), k-1, prev.Sub(baseTime), k, tx.rtoMin, bound.Sub(baseTime))
 		}
 		lb := bound
-		if e.manual && !w.lastNow.IsZero() && w.lastNow.After(lb) {
+		if e.exactClock() && !w.lastNow.IsZero() && w.lastNow.After(lb) {
 			lb = w.lastNow
 		}
 		tx.lb = append(tx.lb, lb)
@@ -950,7 +999,17 @@ func (e *clientEngine) txHandler(tx *cTx) stun.Handler {
 			e.reentered++
 			e.stats["probe_handler_reentered_client"]++
 			if tk := e.r.Sim.Cur(); tk != nil {
-				e.startTx(tk, txStart, nil)
+				if tk.ID != e.readerTask && e.r.Pct(50, "nested-do") {
+					// Do from inside a handler that does not run in the reader
+					// goroutine (timeout / close paths): the answer is protected so
+					// that the nested call can complete
+					e.stats["probe_handler_nested_do"]++
+					e.nestedDo++
+					e.startTx2(tk, txDo, true)
+					e.nestedDo--
+				} else {
+					e.startTx(tk, txStart, nil)
+				}
 			}
 		}
 		verifrt.Yield(hsHandler)
@@ -1124,6 +1183,14 @@ func (e *clientEngine) drawSize() int {
 }
 
 func (e *clientEngine) startTx(tk *verifrt.Task, kind cTxKind, reuse *cTx) {
+	e.startTx3(tk, kind, reuse, false)
+}
+
+func (e *clientEngine) startTx2(tk *verifrt.Task, kind cTxKind, protected bool) {
+	e.startTx3(tk, kind, nil, protected)
+}
+
+func (e *clientEngine) startTx3(tk *verifrt.Task, kind cTxKind, reuse *cTx, protected bool) {
 	r := e.r
 	id := e.freshID()
 	if reuse != nil {
@@ -1141,6 +1208,7 @@ func (e *clientEngine) startTx(tk *verifrt.Task, kind cTxKind, reuse *cTx) {
 		tx.kc = reuse.kc
 		e.stats["probe_id_reused_after_end"]++
 	}
+	tx.protected = protected
 	tx.limit = 7
 	if e.noRetransmit {
 		tx.limit = 0
@@ -1166,7 +1234,11 @@ func (e *clientEngine) startTx(tk *verifrt.Task, kind cTxKind, reuse *cTx) {
 		h := e.txHandler(tx)
 		err = e.client.Do(m, func(ev stun.Event) { h(ev) })
 	case txIndicate:
-		err = e.client.Indicate(m)
+		if r.Pct(30, "do-nil") {
+			err = e.client.Do(m, nil) // documented shorthand for Indicate
+		} else {
+			err = e.client.Indicate(m)
+		}
 	}
 	tx.ret = err
 	tx.returned = true
@@ -1232,7 +1304,11 @@ func (e *clientEngine) doSetRTO(tk *verifrt.Task) {
 	s.done = true
 }
 
-func (e *clientEngine) doClose(tk *verifrt.Task) {
+func (e *clientEngine) doClose(tk *verifrt.Task) { e.doClose2(tk, false) }
+
+// doClose2 closes the client through Close, or through the finalizer path
+// (which has no return value: only the resulting state is judged).
+func (e *clientEngine) doClose2(tk *verifrt.Task, viaFinalizer bool) {
 	r := e.r
 	c := &cClose{task: tk.ID, invoke: r.Seq()}
 	e.closes = append(e.closes, c)
@@ -1249,10 +1325,20 @@ func (e *clientEngine) doClose(tk *verifrt.Task) {
 		e.stats["probe_close_with_inflight"]++
 	}
 	verifrt.Yield(hsCaller)
-	err := e.client.Close()
+	var err error
+	if viaFinalizer {
+		e.stats["probe_closed_via_finalizer"]++
+		wasClosed := e.closeOK != nil
+		stun.VerifFinalize(e.client)
+		if wasClosed {
+			err = stun.ErrClientClosed
+		}
+	} else {
+		err = e.client.Close()
+	}
 	c.err = err
 	c.ret = r.Seq()
-	r.Logf("return Close by %s -> %v", tk.Name, err)
+	r.Logf("return Close by %s -> %v (finalizer=%v)", tk.Name, err, viaFinalizer)
 	if errors.Is(err, stun.ErrClientClosed) {
 		c.done = true
 		return
@@ -1271,7 +1357,9 @@ func (e *clientEngine) doClose(tk *verifrt.Task) {
 	if e.closeErrConn && !e.noConnClose {
 		wantConn = errInjConnClose
 	}
-	if wantAgent == nil && wantConn == nil {
+	if viaFinalizer {
+		// no return value to judge
+	} else if wantAgent == nil && wantConn == nil {
 		if err != nil {
 			e.fail(nil, "C15", "close-unexpected-error", "Close returned %v although neither the agent nor the connection failed to close", err)
 		}
@@ -1349,7 +1437,12 @@ func (e *clientEngine) Setup(r *Run) {
 	thorough := r.Tier == "thorough"
 	prof := r.Profile
 
-	e.manual = r.Choose(2, "clockmode") == 1
+	switch r.Choose(5, "clockmode") {
+	case 1, 2:
+		e.manual = true // simulated clock and collector
+	case 3:
+		e.skew = time.Hour // custom clock (one hour behind the ticker's own time) over the real ticker collector
+	}
 	e.noConnClose = r.Pct(25, "noconnclose")
 	e.noRetransmit = r.Pct(20, "noretransmit")
 	e.hasFallback = !r.Pct(30, "nofallback")
@@ -1431,7 +1524,7 @@ func (e *clientEngine) Setup(r *Run) {
 		}
 		r.Sim.SiteOff = off
 	}
-	e.cfgDesc = map[string]any{"manual_clock": e.manual, "no_conn_close": e.noConnClose, "no_retransmit": e.noRetransmit, "fallback": e.hasFallback,
+	e.cfgDesc = map[string]any{"manual_clock": e.manual, "clock_skew": e.skew.String(), "no_conn_close": e.noConnClose, "no_retransmit": e.noRetransmit, "fallback": e.hasFallback,
 		"rto": e.rto0.String(), "rate": e.rate.String(), "callers": e.nCallers, "ops_per_caller": e.opsPer, "loss": e.lossPct, "dup": e.dupPct, "corrupt": e.corruptPct,
 		"write_fail": e.writeFailPct, "yield_density": dens, "in_lock_yields": r.Sim.YieldInLock, "pool_mode": r.Sim.PoolMode, "avoid_known": e.avoidKnown, "marathon": e.marathon, "handler_reenters_pct": e.reentPct}
 
@@ -1457,6 +1550,8 @@ func (e *clientEngine) Setup(r *Run) {
 		if e.manual {
 			e.coll = &simCollector{e: e}
 			opts = append(opts, stun.WithClock(simClock{e}), stun.WithCollector(e.coll))
+		} else if e.skew != 0 {
+			opts = append(opts, stun.WithClock(simClock{e}))
 		}
 		c, err := stun.NewClient(e.conn, opts...)
 		if err != nil {
@@ -1559,7 +1654,7 @@ func (e *clientEngine) Env() []EnvEvent {
 				e.stats["fault_duplicate"]++
 				e.pending = append(e.pending, &cDatagram{data: d.data, id: d.id, decodes: d.decodes, kind: d.kind + "+dup"})
 			}
-			if chaos && r.Pct(e.corruptPct, "corrupt") {
+			if chaos && !d.protected && r.Pct(e.corruptPct, "corrupt") {
 				d = e.corrupt(d)
 			}
 			if i != 0 {
@@ -1570,6 +1665,9 @@ func (e *clientEngine) Env() []EnvEvent {
 		if chaos && e.lossPct > 0 || e.phase == phHeal {
 			ev = append(ev, EnvEvent{Name: "net-drop", Weight: 1 + e.lossPct/10, Do: func() {
 				i := r.Choose(n, "which")
+				if e.pending[i].protected {
+					return
+				}
 				e.pending = append(e.pending[:i:i], e.pending[i+1:]...)
 				e.stats["fault_loss"]++
 			}})
@@ -1706,12 +1804,24 @@ func (e *clientEngine) Quiescent() bool {
 				return true
 			}
 		}
+		if !e.closeBegan && e.viol == nil {
+			// nothing is runnable and Close was never called: the reader must
+			// have consumed everything the network delivered
+			if len(e.inbox) > 0 {
+				e.fail(nil, "C12", "reader-not-consuming", "%d delivered datagrams were never read although the client is open and the run is quiescent (first: %s, id=%x)", len(e.inbox), e.inbox[0].kind, e.inbox[0].id[8:])
+				return true
+			}
+		}
 		e.phase = phClose
 		if e.closeOK == nil {
 			e.stats["close_in_close_phase"]++
 			n := 1 + r.Choose(3, "nclosers")
+			fin := r.Pct(10, "close-via-finalizer")
+			if fin {
+				n = 1
+			}
 			for i := 0; i < n; i++ {
-				r.Sim.Spawn(fmt.Sprintf("closer%d", i), func() { e.doClose(r.Sim.Cur()) }, r.Sim.Tasks[0])
+				r.Sim.Spawn(fmt.Sprintf("closer%d", i), func() { e.doClose2(r.Sim.Cur(), fin) }, r.Sim.Tasks[0])
 			}
 			return true
 		}
